@@ -118,6 +118,7 @@ def gen_spec(seed):
     tool_ops = ops_by_tool()
     reconf_at = set(rng.sample(range(1, max(2, length)), min(max(1, length - 1), rng.choice([1, 2, 3])))) if rng.random() < 0.25 and length > 2 else set()
     p_scribble = rng.choice([0.0, 0.0, 0.3, 0.6])
+    reset_at = rng.randrange(1, length) if length > 2 and rng.random() < 0.12 else -1
     used_tools = {}
     forced = []
     late_plan = {}
@@ -143,6 +144,8 @@ def gen_spec(seed):
                     follow = [o for o in tool_ops.get(new_key, []) if not o.needs or o.needs in imported]
                     focus_follow = [o for o in follow if o.group in focus] or follow
                     forced = [(ci, rng.choice(focus_follow)) for _ in range(rng.choice([1, 2, 3]))] if focus_follow else []
+        if i == reset_at:
+            steps.append({"reset": rng.randrange(nctx)})  # XmlContext.reset(): every cache is dropped, calls go on
         pool = [op for op in cands if not op.needs or op.needs in imported]
         if imported and rng.random() < 0.4:
             latepool = [op for op in core.Z.ops if op.needs in imported and (op.group in focus or op.group in ("noclass", "ctx"))]
@@ -178,7 +181,7 @@ def run_spec(spec, R):
     fired = {}
     pairs = set()
     prev_on_ctx = {}
-    probes = {"parse_after_failed_parse_same_parser": 0, "serialize_after_sink_fault": 0, "index_rebuilt_after_import": 0, "step_after_fault": 0, "meta_cache_hit_other_parent_ns": 0, "reconfigured_live_tool": 0, "caller_changed_returned_object": 0}
+    probes = {"parse_after_failed_parse_same_parser": 0, "serialize_after_sink_fault": 0, "index_rebuilt_after_import": 0, "step_after_fault": 0, "meta_cache_hit_other_parent_ns": 0, "reconfigured_live_tool": 0, "context_reset_between_calls": 0, "caller_changed_returned_object": 0}
     last_failed_tool = {}
     pending_fault = False
     imported_since = [False] * len(envs)
@@ -187,6 +190,11 @@ def run_spec(spec, R):
             core.register_late(step["import"])
             log.append(("import", step["import"]))
             imported_since = [True] * len(envs)
+            continue
+        if "reset" in step:
+            envs[step["reset"] % len(envs)].context.reset()
+            log.append(("reset", step["reset"]))
+            probes["context_reset_between_calls"] += 1
             continue
         if "reconfig" in step:
             done = O.reconfigure(envs[step.get("ctx", 0) % len(envs)], tuple(step["reconfig"]), step["cfg"], step.get("how", "inplace"))
